@@ -8,9 +8,19 @@ import (
 
 // Scan breaks a string into a sequence of Tokens.
 func Scan(data string, loc SourceLoc, delims []string) (tokens []Token) {
-	// Apply defaults
+	// Apply defaults: for a missing or malformed list, and for each empty entry
+	defaults := []string{"{{", "}}", "{%", "%}"}
 	if len(delims) != 4 {
-		delims = []string{"{{", "}}", "{%", "%}"}
+		delims = defaults
+	} else {
+		given := delims
+		delims = make([]string, 4) // never write to the caller's (shared) configuration
+		for i, d := range given {
+			if d == "" {
+				d = defaults[i]
+			}
+			delims[i] = d
+		}
 	}
 	tokenMatcher := formTokenMatcher(delims)
 
@@ -26,7 +36,7 @@ func Scan(data string, loc SourceLoc, delims []string) (tokens []Token) {
 		source := data[ts:te]
 		switch {
 		case data[ts:ts+len(delims[0])] == delims[0]:
-			if source[2] == '-' {
+			if source[len(delims[0])] == '-' {
 				tokens = append(tokens, Token{
 					Type: TrimLeftTokenType,
 				})
@@ -37,13 +47,13 @@ func Scan(data string, loc SourceLoc, delims []string) (tokens []Token) {
 				Source:    source,
 				Args:      data[m[2]:m[3]],
 			})
-			if source[len(source)-3] == '-' {
+			if source[len(source)-len(delims[1])-1] == '-' {
 				tokens = append(tokens, Token{
 					Type: TrimRightTokenType,
 				})
 			}
 		case data[ts:ts+len(delims[2])] == delims[2]:
-			if source[2] == '-' {
+			if source[len(delims[2])] == '-' {
 				tokens = append(tokens, Token{
 					Type: TrimLeftTokenType,
 				})
@@ -58,7 +68,7 @@ func Scan(data string, loc SourceLoc, delims []string) (tokens []Token) {
 				tok.Args = data[m[6]:m[7]]
 			}
 			tokens = append(tokens, tok)
-			if source[len(source)-3] == '-' {
+			if source[len(source)-len(delims[3])-1] == '-' {
 				tokens = append(tokens, Token{
 					Type: TrimRightTokenType,
 				})
